@@ -21,8 +21,9 @@ VARIABLES
   runinfo,  \* [run, invs, probeIds, frozen]
   viol,     \* [pre, post]: names of the predicates violated so far in this run,
             \*   before / after the first known-finding pattern occurred in it
-  kf        \* known-finding patterns seen so far in this run (see KfTags)
-ovars == <<nodeVars, l, calls, runinfo, viol, kf>>
+  kf,       \* known-finding patterns seen so far in this run (see KfTags)
+  nt        \* failure notifications (growth predicate NOTIFY): [direct, h: [hash -> [open, owed]]]
+ovars == <<nodeVars, l, calls, runinfo, viol, kf, nt>>
 
 Has(r, f) == f \in DOMAIN r
 
@@ -36,6 +37,7 @@ Init ==
   /\ runinfo = [run |-> 0, invs |-> <<>>, probeIds |-> {}, frozen |-> {}]
   /\ viol = [pre |-> {}, post |-> {}]
   /\ kf = {}
+  /\ nt = [direct |-> FALSE, h |-> [h \in Hashes |-> [open |-> FALSE, owed |-> 0]]]
 
 ---------------------------------------------------------------------------
 (* trace line -> records of Node/Props                                      *)
@@ -126,11 +128,39 @@ PayShape(line) == \A c \in {CallRec(line.out[k]) : k \in Items(line, "issue")} :
    c.kind = "pay" => c.retry = cfg.retry /\ ~c.other /\ (cfg.xpay => ~c.label /\ ~c.risk)
                      /\ (~cfg.xpay => c.label /\ c.risk)
 
+(* NOTIFY (beyond the listed properties): the operator is told about a failed *)
+(* trampoline payment once per failed pay of a lifecycle, and about nothing   *)
+(* else.  Black box: a lifecycle has a pay "open" from the moment it issues   *)
+(* one until it answers its set; answering the set with a failure outside an  *)
+(* arrival burst while the pay is open means pay() failed - one notification  *)
+(* for that hash is owed, and must have been emitted when the run has drained *)
+(* (a crash forgives it).  Not judged in runs that call the provider directly.*)
+NtAns(line, h, onlyFail) ==
+  line.ev # "htlc" /\ \E k \in Items(line, "answer") :
+     /\ line.out[k].i \in DOMAIN htlc /\ htlc[line.out[k].i].key = h
+     /\ (onlyFail => line.out[k].r = "fail")
+NtNotes(line, h) == Cardinality({k \in Items(line, "notify") : line.out[k].hash = h})
+NtPays(line, h) == \E k \in Items(line, "issue") : line.out[k].kind = "pay" /\ line.out[k].hash = h
+NtAdd(line, h) == IF nt.h[h].open /\ NtAns(line, h, TRUE) THEN 1 ELSE 0
+NtAfter(line) ==
+  IF line.ev = "crash" THEN [nt EXCEPT !.h = [h \in Hashes |-> [open |-> FALSE, owed |-> 0]]]
+  ELSE [direct |-> nt.direct \/ line.ev \in {"wpcall", "paycall"},
+        h |-> [h \in Hashes |->
+                 [open |-> IF NtPays(line, h) THEN TRUE ELSE IF NtAns(line, h, FALSE) THEN FALSE ELSE nt.h[h].open,
+                  owed |-> Hi(0, nt.h[h].owed + NtAdd(line, h) - NtNotes(line, h))]]]
+NotifyOK(line) ==
+  nt.direct \/ line.ev = "crash" \/
+    /\ \A h \in Hashes : NtNotes(line, h) <= nt.h[h].owed + NtAdd(line, h)
+    /\ \A k \in Items(line, "notify") : line.out[k].hash \in Hashes
+    /\ (line.ev = "drained" =>
+          \A h \in Hashes \ (IF Has(line, "frozen") THEN Range(line.frozen) ELSE {}) :
+             NtAfter(line).h[h].owed = 0)
+
 Judged(line) ==
   [C01 |-> C01, C02 |-> C02, C03 |-> C03, C04 |-> C04, C05 |-> C05,
    C06 |-> C06once /\ C06nopanic /\ C06wellformed /\ C06codes(line),
    C07 |-> C07, C08 |-> C08, C11 |-> C11, C12 |-> C12 /\ C12bytes(line),
-   C13 |-> C13 /\ C13payload(line), C10 |-> C10hint /\ C10payee(line) /\ C13, AUDIT |-> Audit, C15 |-> C15, C16 |-> C16, PAYSHAPE |-> PayShape(line)]
+   C13 |-> C13 /\ C13payload(line), C10 |-> C10hint /\ C10payee(line) /\ C13, AUDIT |-> Audit, C15 |-> C15, C16 |-> C16, PAYSHAPE |-> PayShape(line), NOTIFY |-> NotifyOK(line)]
 
 Violated(line) == LET j == Judged(line) IN {p \in DOMAIN j : ~j[p]}
 
@@ -153,6 +183,7 @@ Acc(line, extra) ==
   LET k1 == kf \cup KfTags(line)
       v == Violated(line) \cup extra IN
   /\ kf' = k1
+  /\ nt' = NtAfter(line)
   /\ viol' = IF k1 = {} THEN [viol EXCEPT !.pre = @ \cup v]
              ELSE [viol EXCEPT !.post = @ \cup (v \ viol.pre)]
 
@@ -172,6 +203,7 @@ DoReset ==
   /\ runinfo' = [run |-> Line.run, invs |-> Line.invs, probeIds |-> {}, frozen |-> {}]
   /\ viol' = [pre |-> {}, post |-> {}]
   /\ kf' = {}
+  /\ nt' = [direct |-> FALSE, h |-> [h \in Hashes |-> [open |-> FALSE, owed |-> 0]]]
 
 DoHtlc ==
   /\ Line.ev = "htlc"
@@ -245,7 +277,7 @@ DoProbe ==
   /\ NodeStep([t |-> "probe"], Reaction(Line))
   /\ calls' = calls
   /\ runinfo' = [runinfo EXCEPT !.probeIds = @ \cup Range(Line.ids)]
-  /\ UNCHANGED <<viol, kf>>
+  /\ UNCHANGED <<viol, kf, nt>>
 
 \* end of run: C09 (some probe set was settled with the right preimage), report
 DoEnd ==
@@ -259,7 +291,7 @@ DoEnd ==
         /\ viol' = [pre |-> {}, post |-> {}]
         /\ kf' = {}
   /\ NodeStep([t |-> "end"], NoReaction)
-  /\ UNCHANGED <<calls, runinfo>>
+  /\ UNCHANGED <<calls, runinfo, nt>>
 
 Next ==
   /\ l <= N
